@@ -119,13 +119,21 @@ func VerifC16_CommonTypeShapes() {
 			return sast.TypeRef("A")
 		}
 	}
-	s := &sast.Schema{
-		Entities:    sast.Entities{"A": sast.Entity{Shape: sast.RecordType{"x": sast.Attribute{Type: sast.TypeRef("X")}}, Tags: sast.TypeRef("Y")}},
-		CommonTypes: sast.CommonTypes{"X": sast.CommonType{Type: mk("X")}, "Y": sast.CommonType{Type: mk("Y")}},
-		Actions:     sast.Actions{"view": sast.Action{AppliesTo: &sast.AppliesTo{Principals: []sast.EntityTypeRef{"A"}, Resources: []sast.EntityTypeRef{"A"}, Context: sast.RecordType{"c": sast.Attribute{Type: sast.TypeRef("X")}}}}},
-	}
+	ents := sast.Entities{"A": sast.Entity{Shape: sast.RecordType{"x": sast.Attribute{Type: sast.TypeRef("X")}}, Tags: sast.TypeRef("Y")}}
+	cts := sast.CommonTypes{"X": sast.CommonType{Type: mk("X")}, "Y": sast.CommonType{Type: mk("Y")}}
+	acts := sast.Actions{"view": sast.Action{AppliesTo: &sast.AppliesTo{Principals: []sast.EntityTypeRef{"A"}, Resources: []sast.EntityTypeRef{"A"}, Context: sast.RecordType{"c": sast.Attribute{Type: sast.TypeRef("X")}}}}}
 	if vrt.Choice("shadow", 3) == 1 {
-		s.CommonTypes["Long"] = sast.CommonType{Type: sast.Bool()}
+		cts["Long"] = sast.CommonType{Type: sast.Bool()}
+	}
+	// the declarations live at top level, in a namespace, or in a nested namespace
+	s := &sast.Schema{}
+	switch vrt.Choice("namespace", 3) {
+	case 0:
+		s.Entities, s.CommonTypes, s.Actions = ents, cts, acts
+	case 1:
+		s.Namespaces = sast.Namespaces{"NS": sast.Namespace{Entities: ents, CommonTypes: cts, Actions: acts}}
+	case 2:
+		s.Namespaces = sast.Namespaces{"Org::App": sast.Namespace{Entities: ents, CommonTypes: cts, Actions: acts}}
 	}
 	rs, err := resolved.Resolve(s)
 	if err != nil {
